@@ -14,6 +14,8 @@ extern "C"
     void h_wait_end(long fut);
     void h_wake_begin(int all, int wrapped, long u);
     void h_wake_end(void);
+    void h_delegate_parking(int id, int prio, void *head);
+    void h_delegate_woken(int id, long fut);
     void h_push_begin(int prod, int seq);
     void h_push_end(int prod, int seq);
     void h_pop_begin(void);
@@ -28,6 +30,9 @@ extern "C"
     unsigned prog_head_size_locked(void *h);
     long prog_wait(void *head, int prio);
     void prog_wake(void *head, int all, int wrapped, long u);
+    void *prog_delegate_new(int id, int kind);
+    void prog_delegate_delete(void *d);
+    void prog_delegate_park(void *d, void *head, int prio);
     void *prog_queue_new(void);
     void *prog_queue_new_preloaded(int prod, int n);
     void prog_queue_delete(void *q);
